@@ -1,14 +1,123 @@
 /-
   C14 — Transaction ids are unique across threads and reproducible.
-  Property theorems only.
+  Property theorems only. Every schedule, every number of threads and calls.
+
+  The id a call returns is `Uuid::new_v5(namespace, counter.to_string())`; what is proved here is
+  about the counter: every call (a thread's `next`, or the draw inside a match) is ONE atomic step
+  that returns the counter and increments it, so along any interleaving the values handed out are
+  g, g+1, g+2, … in the order of the draws — pairwise distinct as long as the 64-bit counter does
+  not wrap, and the same sequence for any two generators started at the same value.
+  Assumed, not proved: `new_v5` (SHA-1) is injective on distinct decimal strings.
 -/
-import PLV.Model.Conc
+import PLV.Lemmas.ConcInit
 
 namespace PLV.C14
 open PLV PLV.Conc
 
+/-- does this program counter draw an id? -/
+def isDraw : Pc → Bool
+  | .nx | .mUuid _ _ => true
+  | _ => false
+
 /-- `UuidGenerator::next` is a single atomic step: it returns the counter's value and increments it -/
 theorem C14_next_is_one_step (s : Shared) :
     (tstep s .nx).1.g = wadd s.g 1 ∧ (tstep s .nx).2.1 = .done (toString s.g) := ⟨rfl, rfl⟩
+
+/-- the counter moves only at a draw, and then by exactly one -/
+theorem C14_counter_step (s : Shared) (pc : Pc) :
+    (tstep s pc).1.g = if isDraw pc then wadd s.g 1 else s.g := by
+  cases pc with
+  | can0 id => simp only [tstep, isDraw]; cases s.map.find id <;> rfl
+  | am0 id n => simp only [tstep, isDraw]; cases s.map.find id <;> rfl
+  | am1 id n => simp only [tstep, isDraw]; cases s.map.find id <;> rfl
+  | amV o1 new => simp only [tstep, isDraw]; split <;> rfl
+  | amH o1 new => simp only [tstep, isDraw]; split <;> rfl
+  | mPop L => simp only [tstep, isDraw]; cases s.tickets <;> rfl
+  | mRm L t => simp only [tstep, isDraw]; cases s.map.find t <;> rfl
+  | _ => rfl
+
+/-- the value drawn by thread `i`'s next step, if that step is a draw -/
+def drawOf (c : Cfg) (i : Nat) : Option Nat :=
+  match c.ts[i]? with
+  | none => none
+  | some t =>
+    match t.norm with
+    | none => none
+    | some tn => if isDraw tn.pc then some c.sh.g else none
+
+/-- the values drawn along a schedule, in order -/
+def draws (c : Cfg) : List Nat → List Nat
+  | [] => []
+  | i :: rest => (match drawOf c i with | some k => [k] | none => []) ++ draws (Conc.step c i).1 rest
+
+theorem step_g (c : Cfg) (i : Nat) :
+    (Conc.step c i).1.sh.g = if (drawOf c i).isSome then wadd c.sh.g 1 else c.sh.g := by
+  cases hti : c.ts[i]? with
+  | none => simp [Conc.step, drawOf, hti]
+  | some t =>
+    cases hn : t.norm with
+    | none => simp [Conc.step, drawOf, hti, hn]
+    | some tn =>
+      simp only [Conc.step, drawOf, hti, hn, C14_counter_step]
+      by_cases hd : isDraw tn.pc = true <;> simp [hd]
+
+/-- **the values handed out along any schedule are the consecutive counter values from the
+    generator's starting point (mod 2^64), whichever threads draw them** -/
+theorem C14_draws_consecutive (sched : List Nat) :
+    ∀ (c : Cfg), c.sh.g < W →
+      draws c sched = (List.range (draws c sched).length).map (fun k => (c.sh.g + k) % W) := by
+  induction sched with
+  | nil => intro c _; rfl
+  | cons i rest ih =>
+    intro c hg
+    have hstep := step_g c i
+    simp only [draws]
+    cases hd : drawOf c i with
+    | none =>
+      simp only [hd, Option.isSome_none, Bool.false_eq_true, if_false] at hstep
+      simp only [List.nil_append]
+      have := ih (Conc.step c i).1 (by rw [hstep]; exact hg)
+      rw [hstep] at this; exact this
+    | some k =>
+      have hk : k = c.sh.g := by
+        unfold drawOf at hd
+        cases h1 : c.ts[i]? with
+        | none => simp [h1] at hd
+        | some t =>
+          simp only [h1] at hd
+          cases h2 : t.norm with
+          | none => simp [h2] at hd
+          | some tn => simp only [h2] at hd; split at hd <;> simp_all
+      simp only [hd, Option.isSome_some, if_true] at hstep
+      have hlt : (Conc.step c i).1.sh.g < W := by rw [hstep]; exact Nat.mod_lt _ (by decide)
+      have := ih (Conc.step c i).1 hlt
+      simp only [List.singleton_append, List.length_cons]
+      rw [this, hstep, hk, List.range_succ_eq_map]
+      simp only [List.map_cons, List.map_map, Nat.add_zero, Nat.mod_eq_of_lt hg, List.length_map, List.length_range]
+      congr 1
+      apply List.map_congr_left
+      intro a _
+      simp only [Function.comp, wadd, W]
+      omega
+
+/-- hence pairwise distinct while fewer than 2^64 ids are drawn -/
+theorem C14_draws_distinct (c : Cfg) (hg : c.sh.g < W) (sched : List Nat) (hn : (draws c sched).length ≤ W) :
+    (draws c sched).Nodup := by
+  rw [C14_draws_consecutive sched c hg, List.Nodup, List.pairwise_map]
+  refine List.Pairwise.imp_of_mem ?_ List.pairwise_lt_range
+  intro a b ha hb hab
+  simp only [List.mem_range] at ha hb
+  simp only [W] at *
+  omega
+
+/-- reproducibility: the values drawn depend only on the starting counter and on how many draws
+    happen, not on the threads, the orders or the interleaving -/
+theorem C14_reproducible (c c' : Cfg) (sched sched' : List Nat) (hg : c.sh.g < W) (hg' : c'.sh.g < W)
+    (h0 : c.sh.g = c'.sh.g) (hn : (draws c sched).length = (draws c' sched').length) :
+    draws c sched = draws c' sched' := by
+  rw [C14_draws_consecutive sched c hg, C14_draws_consecutive sched' c' hg', h0, hn]
+
+/-! non-vacuity: two threads drawing concurrently -/
+example : draws (Cfg.init (Level.new 100) 5 [[.next, .next], [.next]]) [0, 1, 0] = [5, 6, 7] := by decide
 
 end PLV.C14
